@@ -110,7 +110,12 @@ def random_cases(draw):
     else:
         g = draw(games.stopping_games(min_inner=2, max_inner=9, max_sinks=3, dup_names=True, zero_edges=True))
         route = draw(st.sampled_from(("component", "pipeline", "assigned")))
-    return dict(game=g, route=route)
+    case = dict(game=g, route=route)
+    if draw(st.integers(0, 3)) == 0:
+        # the caller conditioned the same description on other targets before (same list objects)
+        n = len(g["players"])
+        case["earlier_finals"] = draw(st.lists(st.integers(0, n - 1), min_size=1, max_size=2, unique=True))
+    return case
 
 
 def tiny_cases():
@@ -138,6 +143,22 @@ def observe(case):
     route = case["route"]
     n = len(game["players"])
     g = copy_game(game)
+    if case.get("earlier_finals"):
+        # an earlier conditioning through the very same rewards / players / transition-list objects, other targets
+        # (reachability + conditioning only: the reward solve that would follow is not this property's business)
+        e = dict(g, final_states=list(case["earlier_finals"]))
+        try:
+            with sweep_budget(tad, 200000, n):
+                sg0 = tad.StochasticGame(**e)
+                sg0.check_game()
+                solver0 = tad.Solver(state_list=sg0.init_states(), threshold=10 ** (-6))
+                strategies0, _ = solver0.solve_reachability(e["transition_list"], e["final_states"], False)
+                solver0.prune_reachability(strategies0)
+                solver0.prune_stochastich_game()
+        except BudgetExceeded:
+            return ("skip", "budget in the earlier conditioning")
+        except Exception:
+            pass
     if route in ("component", "assigned"):
         with sweep_budget(tad, None, None):
             sg = tad.StochasticGame(**g)
@@ -246,6 +267,8 @@ def check_case(case):
     game = case["game"]
     n = len(game["players"])
     v.cls("route_" + case["route"])
+    if case.get("earlier_finals"):
+        v.cls("after_an_earlier_conditioning_of_the_same_lists")
     try:
         obs = observe(case)
     except BudgetExceeded:
